@@ -336,6 +336,7 @@ func dischargeAll(obls []*Obligation, cfg solveConfig) []*SolveResult {
 			r := results[j.idx]
 			r.Status = "discharged"
 			t0 := time.Now()
+			coverUnsat, coverOther := 0, 0
 			for k, f := range j.files {
 				o := j.obl[k]
 				fi, _ := os.Stat(f)
@@ -355,16 +356,19 @@ func dischargeAll(obls []*Obligation, cfg solveConfig) []*SolveResult {
 				if o.Expect == "sat" {
 					switch st {
 					case "unsat":
-						r.Status, r.File, r.Detail = "vacuous", f, "the hypotheses at this point are unsatisfiable (contradictory precondition, invariant or assumed callee contract)"
+						coverUnsat++
+						r.File = f
 					case "sat":
-						if r.Status == "discharged" {
-							r.Status = "ok-sat"
-						}
+						coverOther++
 					default:
-						if r.Status == "discharged" {
-							r.Status = "ok-sat"
-							r.Detail = "satisfiability not confirmed (" + st + ")"
-						}
+						coverOther++
+						r.Detail = "satisfiability not confirmed (" + st + ")"
+					}
+					// the site is vacuous only if it is unreachable on every path that gets there
+					if coverOther > 0 {
+						r.Status = "ok-sat"
+					} else if coverUnsat > 0 {
+						r.Status, r.Detail = "vacuous", "the hypotheses at this point are unsatisfiable on every path (contradictory precondition, invariant or assumed callee contract)"
 					}
 					continue
 				}
